@@ -19,7 +19,7 @@ def main(argv):
             if groups and g not in groups and not any(q.endswith(x) for x in groups):
                 continue
             t0 = time.time()
-            res = verify_unit(loader, reg.contracts[q], reg)
+            res = reg.lemmas[q].run(loader, reg) if q in reg.lemmas else verify_unit(loader, reg.contracts[q], reg)
             agg = res.clause_status()
             n_ok = sum(1 for v in agg.values() if v == "proved")
             print("== %s  paths=%d outcomes=%d infeasible=%d backedges=%d  clauses %d/%d  %.1fs (solver %.1fs)%s%s"
